@@ -138,7 +138,9 @@ def _pc_point(ids, pc):
         for a in i.reshape(-1):
             ps.var(int(a))
     ps.add_path(pc)
-    m = ps.nice_model(_z3.BoolVal(True), [a for a in ps.vars if P.ATOMS.kind[a] in ('in', 'cot', 'par')])
+    m = ps.guess()
+    if m is None:
+        m = ps.nice_model(_z3.BoolVal(True), [a for a in ps.vars if P.ATOMS.kind[a] in ('in', 'cot', 'par')])
     if m is None:
         return None
     return [core.model_array(m, i) for i in ids]
@@ -184,7 +186,7 @@ def _check_linear_path(res, cfg, facts, in_specs, impl, ref, tau_rel=1e-9, allow
         res.status = 'inconclusive'; res.notes.append('symbolic engine: ' + so[1])
         return None
     if so[0] != r1[0] or (so[0] == 'raise' and so[1] != r1[1]):
-        res.status = 'error'; res.trace = 'symbolic outcome %r differs from real torch outcome %r' % (so[:3], r1[:3])
+        res.status = 'error'; res.trace = 'symbolic outcome %r differs from real torch outcome %r' % (core.brief(so), core.brief(r1))
         return None
     # ---- oracle -----------------------------------------------------------------------------
     parts, n, B = _basis(in_specs)
@@ -290,6 +292,24 @@ def _check_linear_path(res, cfg, facts, in_specs, impl, ref, tau_rel=1e-9, allow
             return None
         if M.size:
             dev = max(dev, float(np.abs(M - Rm).max()), float(np.abs(c0).max()))
+    if not pc and dev > validate_tol * scale:
+        # the operator extracted from the batched basis run (batch = number of inputs) differs from the symbolic run on the actual
+        # shape.  Either the engine is wrong, or the implementation treats batch sizes differently: compare at a point on the
+        # actual shape, where both runs used the same batch size
+        envp = P.AtomEnv()
+        for i, x in zip(ids, xs):
+            for a, v in zip(i.reshape(-1), x.reshape(-1)):
+                envp[int(a)] = float(v)
+        dev2 = 0.0
+        for (nm, t), (_, rr) in zip(souts, r1[1]):
+            if t is None:
+                continue
+            sv = np.array([p.evalf(envp) for p in t.a.reshape(-1)])
+            rv = rr.detach().numpy().reshape(-1)
+            dev2 = max(dev2, float(np.abs(sv - rv).max()) if sv.size and sv.shape == rv.shape else float('inf'))
+        if dev2 <= 1e-9 * scale:
+            res.notes.append('the implementation depends on the batch size (batched basis run deviates by %.3g, actual shape agrees to %.3g): engine validated at a point on the actual shape' % (dev, dev2))
+            dev = dev2
     res.validated = dev if res.validated is None else max(res.validated, dev)
     if dev > max(validate_tol, 1e-9 if pc else 0) * scale:
         res.status = 'error'; res.trace = 'symbolic operator deviates from real torch by %g (scale %g)' % (dev, scale)
@@ -327,7 +347,7 @@ def _check_linear_path(res, cfg, facts, in_specs, impl, ref, tau_rel=1e-9, allow
                 res.nontrivial = True
             v, model = solver.decide_amplified(d, tau, label='%s[%d]' % (nm, k))
             if v == 'sat':
-                if pc:
+                if pc and solver._last_guess is not model:
                     model = solver.nice_model(solver._last_query, [int(a) for a in all_ids]) or model
                 sats.append((nm, k, model))
             elif v != 'unsat':
@@ -444,7 +464,7 @@ def _check_same_path(res, cfg, facts, in_specs, impl_a, impl_b, tau_rel=1e-9, wh
         if s_[0] == 'unsupported':
             res.status = 'inconclusive'; res.notes.append('symbolic engine: ' + s_[1]); return None
         if s_[0] != r_[0] or (s_[0] == 'raise' and s_[1] != r_[1]):
-            res.status = 'error'; res.trace = 'symbolic outcome %r differs from real torch outcome %r' % (s_[:3], r_[:3]); return None
+            res.status = 'error'; res.trace = 'symbolic outcome %r differs from real torch outcome %r' % (core.brief(s_), core.brief(r_)); return None
     if sa[0] == 'raise' or sb[0] == 'raise':
         if sa[0] == sb[0] and allow_both_raise:
             res.status = 'skipped'; res.notes.append('both sides raise (%s / %s)' % (sa[1], sb[1])); return None
